@@ -15,6 +15,7 @@ def main(tier, seed):
     base += families.generated(seed, 70 if quick else 700, feat={'faults': 0.1}, inputs=2, family='gen')
     base += fam_tt.random_tt(seed + 1, 20 if quick else 300)
     base += fam_tt.template_family(seed, tier)[::2 if quick else 1]
+    base += fam_tt.template_family(seed, tier, only=[t for t in fam_tt.TEMPLATES if t[0] in ('forced_preempt_in_defeat_fn', 'preempt_in_defeat_fn')])
     base += fam_tt.scope_family(seed, 6 if quick else 60, iters=(0, 2))
     base += families.examples(s=120, names={'hello', 'max', 'factor', 'optional_max'})
     for w in ([3] if quick else [3, 4, 8]):
